@@ -41,19 +41,40 @@ AUX = ('driver_metadata', 'system_metadata', 'solver_metadata', 'driver_derivati
 # --------------------------------------------------------------------------- tracing (child side)
 
 class _Tracer:
-    def __init__(self, log_path, kill_at):
+    def __init__(self, log_path, kill_at, snapdir=None):
         self.fd = os.open(log_path, os.O_WRONLY | os.O_CREAT | os.O_APPEND, 0o644)
         self.kill_at = kill_at
         self.n = 0
         self.files = {}
+        self.snapdir = snapdir
+        self.paths = []
+
+    def snapshot(self, k):
+        """copy the recorder files (database + rollback journal) exactly as the operating system holds them
+        at this instant: the bytes a process death at this statement boundary leaves behind"""
+        d = os.path.join(self.snapdir, 'k%d' % k)
+        os.makedirs(d, exist_ok=True)
+        for p in self.paths:
+            dn, bn = os.path.split(p)
+            for f in os.listdir(dn or '.'):
+                if f.startswith(bn):
+                    try:
+                        shutil.copyfile(os.path.join(dn, f), os.path.join(d, f))
+                    except OSError:
+                        pass
 
     def connect(self, path, *a, **k):
         con = sqlite3.connect(path, *a, **k)
-        fidx = self.files.setdefault(os.path.basename(str(path)), len(self.files))
+        m = re.search(r'rec(\d+)\.sql$', str(path))
+        fidx = int(m.group(1)) if m else self.files.setdefault(os.path.basename(str(path)), 50 + len(self.files))
+        if os.path.abspath(str(path)) not in self.paths:
+            self.paths.append(os.path.abspath(str(path)))
 
         def cb(stmt, fidx=fidx):
             if self.kill_at is not None and self.n == self.kill_at:
                 os._exit(17)           # dies before statement number kill_at executes
+            if self.snapdir is not None:
+                self.snapshot(self.n)
             os.write(self.fd, (json.dumps([fidx, stmt[:400]]) + '\n').encode())
             self.n += 1
         con.set_trace_callback(cb)
@@ -117,6 +138,8 @@ def run_scenario(case):
 def child(case, outdir, kill_at, exit_at_end):
     """never returns"""
     try:
+        import gc
+        gc.freeze()
         os.chdir(outdir)
         dn = os.open(os.devnull, os.O_WRONLY)
         os.dup2(dn, 1)
@@ -328,7 +351,9 @@ def encode_view(obs, fullview):
 # --------------------------------------------------------------------------- one case
 
 def handle(c):
-    base = os.path.abspath('c18_%d_%d' % (os.getpid(), random.randrange(10 ** 9)))
+    # the crash files live on tmpfs when there is one: every COMMIT fsyncs, and thousands of runs are made
+    root = '/dev/shm' if os.access('/dev/shm', os.W_OK) else os.getcwd()
+    base = os.path.join(root, 'verifc18-%d-%d' % (os.getpid(), random.randrange(10 ** 9)))
     os.makedirs(base)
     try:
         return handle_in(c, base)
@@ -336,20 +361,65 @@ def handle(c):
         shutil.rmtree(base, ignore_errors=True)
 
 
+def full_run(c, base):
+    """complete run in this process; the recorder files are snapshotted at every statement boundary"""
+    d = os.path.join(base, 'full')
+    os.makedirs(d)
+    cwd = os.getcwd()
+    os.chdir(d)
+    saved = sr.sqlite3
+    try:
+        tracer = _Tracer('trace.log', None, snapdir=os.path.join(base, 'snap'))
+        sr.sqlite3 = _Sqlite3Proxy(tracer)
+        p = run_scenario(c)
+        tracer.snapdir and tracer.snapshot(tracer.n)      # after the last statement, nothing closed yet
+        tracer.snapdir = None
+        p.cleanup()
+        os.close(tracer.fd)
+        return tracer.n, ''
+    except Exception:   # noqa
+        import traceback
+        return -1, traceback.format_exc()[-800:]
+    finally:
+        sr.sqlite3 = saved
+        os.chdir(cwd)
+
+
+def file_state(d, i):
+    """content hash of the recorder file i and its journal in directory d"""
+    import hashlib
+    h = hashlib.sha1()
+    for f in sorted(os.listdir(d)) if os.path.isdir(d) else []:
+        if f.startswith('rec%d.sql' % i):
+            h.update(f.encode())
+            h.update(open(os.path.join(d, f), 'rb').read())
+    return h.hexdigest()
+
+
+def pick_real_kills(gtrace, n, rnd, count):
+    """statement boundaries at which a real child process is killed: inside case transactions, just before
+    and just after their COMMIT, during start-up, and random ones"""
+    inter = []
+    for k, (_, t) in enumerate(gtrace):
+        if t[0] == 'IG':
+            inter += [k, k + 1, k + 2]
+        if t[0] == 'UM':
+            inter += [k + 1, k + 2]
+    ks = set(rnd.sample(inter, min(len(inter), count)) if inter else [])
+    ks.update(rnd.sample(range(n + 1), min(2, n + 1)))
+    ks.add(n)
+    return sorted(k for k in ks if 0 <= k <= n)
+
+
 def handle_in(c, base):
     nf = c['nfiles']
     t0 = time.time()
-    rc = spawn(c, os.path.join(base, 'full'))
+    n, err = full_run(c, base)
     tfull = time.time() - t0
-    if rc != 0:
-        err = ''
-        try:
-            err = open(os.path.join(base, 'full', 'child_error.txt')).read()[-800:]
-        except OSError:
-            pass
+    if n < 0:
         return {'res': '__none__', 'ok': True, 'msg': 'scenario does not run: ' + err, 'kind': 'skipped', 'sig': ''}
     gtrace = read_trace(os.path.join(base, 'full'), nf)
-    n = len(gtrace)
+    assert len(gtrace) == n
     per_file = [[t for f, t in gtrace if f == i] for i in range(nf)]
     fulls = [observe(os.path.join(base, 'full', 'rec%d.sql' % i)) for i in range(nf)]
     msgs = []
@@ -358,58 +428,70 @@ def handle_in(c, base):
         if m:
             msgs.append(m)
     starts = [started_index(t) for t in per_file]
-    # crash points
-    kills = c.get('kills', 'all')
-    if kills == 'all':
-        ks = list(range(n + 1))
-    else:
-        rnd = random.Random(c.get('seed', 0))
-        ks = sorted(set([0, n] + rnd.sample(range(n + 1), min(int(kills), n + 1))))
     ks_file = [[] for _ in range(nf)]
     codes = [[] for _ in range(nf)]
-    stats = {'crash_points': 0, 'prestart': 0, 'sigkill': 0, 'nstmt': n}
-    for k in ks:
-        d = os.path.join(base, 'k%d' % k)
+    stats = {'crash_points': 0, 'prestart': 0, 'sigkill': 0, 'nstmt': n, 'real_kills': 0, 'distinct_file_states': 0}
+    cache = {}
+
+    def check_point(d, k, label, toks_of=None):
+        for i in range(nf):
+            kf = sum(1 for f, _ in gtrace[:k] if f == i)
+            key = (i, file_state(d, i))
+            if key not in cache:
+                cache[key] = observe(os.path.join(d, 'rec%d.sql' % i))
+                stats['distinct_file_states'] += 1
+            obs = cache[key]
+            ks_file[i].append(kf)
+            codes[i].append(encode_view(obs, fulls[i].get('view', [])))
+            if starts[i] is not None and kf >= starts[i]:
+                m = oracle(obs, fulls[i], '%s %d (file %d, its statement %d)' % (label, k, i, kf))
+                if m and len(msgs) < 5:
+                    msgs.append(m)
+            else:
+                stats['prestart'] += 1
+
+    t1 = time.time()
+    # every statement boundary: the on-disk bytes at that instant
+    for k in range(n + 1):
+        check_point(os.path.join(base, 'snap', 'k%d' % k), k, 'death before statement')
+        stats['crash_points'] += 1
+    t2 = time.time()
+    # real deaths: os._exit inside the trace callback in a child process
+    rnd = random.Random(c.get('seed', 0))
+    for k in pick_real_kills(gtrace, n, rnd, c.get('real_kills', 4)):
+        d = os.path.join(base, 'r%d' % k)
         rc = spawn(c, d, kill_at=k if k < n else None, exit_at_end=(k >= n))
         tr = read_trace(d, nf)
         if [t for _, t in tr] != [t for _, t in gtrace[:k]] or rc not in (17, 18):
             msgs.append('harness: the statement stream of the re-run killed at %d is not the prefix of the '
                         'complete run (rc=%d, %d statements)' % (k, rc, len(tr)))
-        stats['crash_points'] += 1
-        for i in range(nf):
-            kf = sum(1 for f, _ in gtrace[:k] if f == i)
-            obs = observe(os.path.join(d, 'rec%d.sql' % i))
-            ks_file[i].append(kf)
-            codes[i].append(encode_view(obs, fulls[i].get('view', [])))
-            if starts[i] is not None and kf >= starts[i]:
-                m = oracle(obs, fulls[i], 'killed before statement %d (file %d, its statement %d)' % (k, i, kf))
-                if m and len(msgs) < 5:
-                    msgs.append(m)
-            else:
-                stats['prestart'] += 1
+            continue
+        cache.clear()
+        check_point(d, k, 'process killed (os._exit) before statement')
+        stats['real_kills'] += 1
         shutil.rmtree(d, ignore_errors=True)
     # SIGKILL at random times
-    rnd = random.Random(c.get('seed', 0) + 1)
     for j in range(c.get('sigkills', 0)):
         d = os.path.join(base, 's%d' % j)
-        rc = spawn(c, d, sigkill_after=rnd.random() * tfull * 1.05)
+        rc = spawn(c, d, sigkill_after=rnd.random() * max(tfull, 0.05) * 1.5)
         tr = read_trace(d, nf)
         stats['sigkill'] += 1
         for i in range(nf):
             toks = [t for f, t in tr if f == i]
             obs = observe(os.path.join(d, 'rec%d.sql' % i))
-            if rc == 0:
-                kf = len(per_file[i])
-            else:
-                # the last logged statement may or may not have completed
-                kf = len(toks)
-                if obs['open'] and toks and len(obs['view']) != committed_cases(toks):
-                    kf = len(toks) - 1
-                elif toks and toks[-1][0] != 'C':
-                    kf = len(toks) - 1 if len(toks) else 0
             if toks != per_file[i][:len(toks)]:
                 msgs.append('harness: statement stream of a SIGKILLed re-run is not a prefix')
                 continue
+            if rc == 0:
+                kf = len(per_file[i])
+            else:
+                # the statement logged last was executing when the signal arrived: it completed or it did not
+                kf = len(toks)
+                if not toks or toks[-1][0] != 'C' or \
+                        (obs['open'] and len(obs['view']) != committed_cases(toks)):
+                    kf = max(len(toks) - 1, 0)
+                if toks and toks[-1][0] != 'C' and not obs['open'] and starts[i] is None:
+                    kf = max(len(toks) - 1, 0)
             ks_file[i].append(kf)
             codes[i].append(encode_view(obs, fulls[i].get('view', [])))
             if starts[i] is not None and len(toks) > starts[i]:
@@ -417,6 +499,9 @@ def handle_in(c, base):
                 if m and len(msgs) < 5:
                     msgs.append(m)
         shutil.rmtree(d, ignore_errors=True)
+    stats['t_full'] = round(t1 - t0, 2)
+    stats['t_snap'] = round(t2 - t1, 2)
+    stats['t_kill'] = round(time.time() - t2, 2)
     res = [[True, True, fulls[i].get('view') if fulls[i]['open'] else None, codes[i], True] for i in range(nf)]
     ok = not msgs
     return {'res': res, 'ok': ok, 'msg': '; '.join(msgs[:3]), 'sig': 'crash-prefix' if not ok else '',
